@@ -138,7 +138,7 @@ def decide(prop, mod, results, tier, seed, wall):
             for t in mod.tasks():
                 if t.group == r["group"] and t.enumerate is not None:
                     try:
-                        r["enumeration"] = t.enumerate(seed)
+                        r["enumeration"] = json.loads(json.dumps(t.enumerate(seed), default=repr))
                     except Exception:
                         r["enumeration"] = {"name": r["group"] + ".bounded_enumeration", "bound": "crashed", "cases": 0,
                                             "failures": [], "error": traceback.format_exc(limit=6)}
